@@ -341,6 +341,24 @@ func enumerate(thorough bool) []gschema.Schema {
 		addNested([]wrapper{refOpt}, t, true)
 		add(gschema.WithSupport(gschema.Obj{Name: "Root", T: irgen.StructN([]irgen.Field{{Name: "a", Required: true}, {Name: "b", Required: true}}, []Term{irgen.S("string"), t})}))
 	}
+	// a default declared on the NON-NULL BRANCH of a nullable scalar (JSON Schema
+	// `oneOf: [{type: T, default: d}, {type: null}]`; OpenAPI/CUE put it on the
+	// type): a required field carrying it may be absent, at the root and inside a
+	// referenced struct
+	for _, l := range []Term{irgen.S("string"), irgen.S("int64"), irgen.S("bool"), irgen.Enum("str"), irgen.S("float64")} {
+		t := irgen.Nullable(l)
+		t.Default = "scalar@branch"
+		add(gschema.Field1(t, true))
+		add(gschema.Field1(t, false))
+		addNested([]wrapper{refReq}, t, true)
+		addNested([]wrapper{refOpt}, t, true)
+		add(gschema.WithSupport(gschema.Obj{Name: "Root", T: irgen.StructN([]irgen.Field{{Name: "a", Required: true}, {Name: "b", Required: true}}, []Term{irgen.S("string"), t})}))
+		// the same default declared on the union, for comparison
+		u := irgen.Nullable(l)
+		u.Default = "scalar"
+		add(gschema.Field1(u, true))
+		addNested([]wrapper{refReq}, u, true)
+	}
 	// two fields: required x optional over a few representative types
 	rep := []Term{irgen.S("string"), con(irgen.S("int64")), irgen.S("any"), ref("P")}
 	for _, a := range rep {
